@@ -9,6 +9,8 @@
     lifter supplies the fall-through when none was set, before the block is added to the graph
  R3 edges: IRCFG.add_irblock adds an edge for every location / constant leaf of the tracked destination,
     and the tracking splits conditional choices into both arms
+ R5 width inference over every lifter function (sa/widths): no operator / conditional / assignment is built from two expressions of
+    known, different widths
  R4 (x86) every assignment of a block is rewritten to the registers of the lifter's mode, destination pointer included, before
     the block enters the graph ("every referenced register belongs to the architecture" is decided for this rewriting step only)
 """
@@ -32,6 +34,7 @@ def run(ck):
     ck.rule("R2", "a second IRDst in a block is refused; a missing one is completed before the block enters the graph", floor=5)
     ck.rule("R3", "an edge is added for every location/constant leaf of the tracked destination", floor=3)
     _mode_register_rules(ck)
+    _width_rules(ck)
 
     # ---------------------------------------------------------------- R1
     writers = {}
@@ -152,10 +155,7 @@ def run(ck):
     ok = bool(comp) and bool(adds) and all(any(c.id in cfg.dominators()[a.id] for c in comp) for a in adds)
     ck.ob("R2", "post_add_asmblock_to_ircfg:complete-then-add", ok, m.where(fn), "blocks are added to the graph before the missing IRDst is completed")
     fn = m.func("Lifter.set_empty_dst_to_next")
-    ok = any(isinstance(n, ast.If) and norm(n.test) == "irblock.dst is not None" and any(isinstance(s, ast.Continue) for s in n.body) for n in walk_body(fn)) and \
-        any(isinstance(n, ast.Assign) and norm(n.value).startswith("AssignBlock({self.IRDst: dst}") for n in walk_body(fn)) and \
-        any(isinstance(n, ast.Assign) and norm(n.value) == "m2_expr.ExprLoc(loc_key, self.pc.size)" for n in walk_body(fn))
-    ck.ob("R2", "set_empty_dst_to_next", ok, m.where(fn), "a block without IRDst must get exactly one IRDst = ExprLoc(next location)")
+    _complete_dst_rule(ck, m, fn)
 
     # ---------------------------------------------------------------- R3
     fn = m.func("IRCFG.add_irblock")
@@ -177,6 +177,58 @@ def run(ck):
             t = norm(ast.Module(body=n.body, type_ignores=[]))
             ok = "todo.add(dst.src1)" in t and "todo.add(dst.src2)" in t
     ck.ob("R3", "IRCFG._extract_dst:both-arms", ok, m.where(fn), "a conditional destination is not split into both arms")
+
+
+def _complete_dst_rule(ck, m, fn):
+    """A block without IRDst gets exactly one IRDst = ExprLoc(next location): on every path of the loop over the blocks, either the
+    block is known to have a destination, or it is replaced by a block made of ALL its assignment blocks plus one AssignBlock
+    {self.IRDst: ExprLoc(<location>, <pc / IRDst size>)}. Stated on the CFG and on expanded expressions: temporaries, comprehension vs
+    loop, list + [x] vs append are the same code."""
+    from sa.astutil import Resolver
+    from sa.pathob import undischarged, path_text
+    cfg = CFG(fn)
+    res = Resolver(fn)
+    loops = [nd for nd in cfg.nodes if nd.kind == "for" and "ir_blocks" in norm(nd.ast.iter)]
+    ck.need(loops, "Lifter.set_empty_dst_to_next: loop over the IR blocks not found")
+    L = loops[0]
+    blk = [norm(e) for e in L.ast.target.elts][-1] if isinstance(L.ast.target, ast.Tuple) else norm(L.ast.target)
+
+    def has_dst_edge(nd, label):
+        if nd.kind != "test":
+            return False
+        t = norm(nd.ast)
+        return (t == "%s.dst is not None" % blk and label is True) or (t == "%s.dst is None" % blk and label is False) or (t == "%s.dst" % blk and label is True)
+
+    def new_dst_assignblk(e):
+        """AssignBlock({self.IRDst: ExprLoc(x, size)}, ...) possibly through locals"""
+        e = res.expand_node(e)
+        if isinstance(e, ast.Call) and (dotted(e.func) or "").split(".")[-1] == "AssignBlock" and e.args and isinstance(e.args[0], ast.Dict) and len(e.args[0].keys) == 1 \
+                and norm(e.args[0].keys[0]) == "self.IRDst":
+            v = res.expand_node(e.args[0].values[0])
+            return isinstance(v, ast.Call) and (dotted(v.func) or "").split(".")[-1] == "ExprLoc" and len(v.args) == 2 and norm(v.args[1]) in ("self.pc.size", "self.IRDst.size")
+        return False
+
+    def replaces(nd):
+        a = nd.ast
+        if not (nd.kind == "stmt" and isinstance(a, ast.Assign) and isinstance(a.targets[0], ast.Subscript) and norm(a.targets[0].value) == "ir_blocks"):
+            return False
+        v = a.value
+        if not (isinstance(v, ast.Call) and (dotted(v.func) or "").split(".")[-1] == "IRBlock" and len(v.args) == 3 and norm(v.args[1]) == "%s.loc_key" % blk):
+            return False
+        lst = v.args[2]
+        # all old assignment blocks + the new one
+        if isinstance(lst, ast.Name):
+            d = res.unique_def(lst.id)
+            keeps = d is not None and "%s.assignblks" % blk in norm(d)
+            appended = any(isinstance(c, ast.Call) and isinstance(c.func, ast.Attribute) and c.func.attr == "append" and norm(c.func.value) == lst.id and c.args
+                           and new_dst_assignblk(c.args[0]) for c in walk_body(fn))
+            inline = d is not None and any(new_dst_assignblk(x) for x in ast.walk(d) if isinstance(x, (ast.Call, ast.Name)))
+            return keeps and (appended or inline)
+        e = res.expand_node(lst)
+        return "%s.assignblks" % blk in norm(e) and any(new_dst_assignblk(x) for x in ast.walk(lst) if isinstance(x, (ast.Call, ast.Name)))
+    p = undischarged(cfg, replaces, edge_ok=has_dst_edge, start=(L.id, "iter"), targets=[L.id, cfg.exit.id])
+    ck.ob("R2", "set_empty_dst_to_next", p is None and any(replaces(nd) for nd in cfg.nodes), m.where(fn),
+          "a block without IRDst must be replaced by itself plus exactly one IRDst = ExprLoc(next location): %s" % (path_text(p) if p else "no such replacement found"))
 
 
 def _mode_register_rules(ck):
@@ -245,3 +297,26 @@ def _mode_register_rules(ck):
             ck.ob("R4", "irbloc_fix_regs_for_mode:%s-rewritten" % role, p1 is None and p2 is None, xm.where(st.ast),
                   "the %s of an assignment can be stored without the full rewrite to the mode's registers: %s - e.g. a 0x67-prefixed store "
                   "keeps EAX / BX inside its pointer in 64 / 32-bit mode" % (role, path_text(p1) if p1 else ("redefined at %s after the rewrite" % xm.where(p2.ast) if p2 else "")))
+
+
+def _width_rules(ck):
+    """R5: "lifting the instruction either reports it as unsupported or produces IR blocks in which both sides of every assignment have
+    the same width". AssignBlock._set (R1) makes ill-formed IR impossible by raising; the remaining way to break the clause is a lifter
+    function that builds an ExprOp / ExprCond / ExprAssign from two expressions of different widths and therefore raises for the
+    instructions that reach it. sa/widths infers widths in every function of every sem.py (register table of the architecture
+    evaluated from regs.py, forking abstract interpretation, module helpers entered for their result) and reports a combination only
+    when BOTH widths are known constants and differ."""
+    from sa.widths import analyse_arch
+    ck.rule("R5", "no lifter function combines two expressions of known, different widths", floor=7)
+    for arch in ("x86", "arm", "aarch64", "mips32", "ppc", "msp430", "mep"):
+        rel = "miasm/arch/%s/sem.py" % arch
+        if not ck.repo.exists(rel):
+            continue
+        reports, n, undecided, mm = analyse_arch(ck.repo, arch)
+        ck.ob("R5", "%s:widths" % arch, not reports, rel,
+              "%d definite width mismatch(es) in %d functions" % (len(reports), n))
+        ck.note("R5 %s: %d functions analysed, %d left undecided (path budget)" % (arch, n, undecided))
+        for (q, text, wa, wb, what, node) in reports:
+            ck.ob("R5", "%s:%s:%s" % (arch, q, text[:50]), False, mm.mod.where(node),
+                  "%s have widths %d and %d in `%s`: the expression constructor raises, so the instructions reaching this path are neither "
+                  "lifted nor reported as unsupported" % (what, wa, wb, text))
